@@ -7,10 +7,11 @@ PROPS = {
         'verus_units': [
             {'template': 'units/c04_int.rs.in', 'modes': [[]], 'canary': True},
             {'template': 'units/c04_int_err.rs.in', 'modes': [[]], 'canary': True},
+            {'template': 'units/c07_binop_plan.rs.in', 'modes': [[]], 'canary': True},
         ],
         'kani': [{'name': 'c04', 'jobs': 8, 'timeout': 1500}],
         'not_covered': [
-            'operator -> helper selection in src/backend/ir/conversions.rs determine_binop_plan (TokenStream-valued; see C01)',
+            'how emit_binop_expr splices the planned helper path and operands into the output token stream (quote!/TokenStream; see C01); compound-assignment desugaring',
             'IEEE-754 division, fmod and floor themselves (hardware / libm)',
         ],
         'assumptions': [],
@@ -37,11 +38,12 @@ PROPS = {
         'verus_units': [
             {'template': 'units/c07_policy.rs.in', 'modes': [[]], 'canary': True},
             {'template': 'units/c07_exponent.rs.in', 'modes': [[]], 'canary': True},
+            {'template': 'units/c07_binop_plan.rs.in', 'modes': [[]], 'canary': True},
         ],
         'kani': [],
         'not_covered': [
             'TypeChecker::check_binary and the compound-assignment check (methods on checker state), const_eval\'s use',
-            'determine_binop_plan / emit_binop_expr (TokenStream-valued)',
+            'emit_binop_expr: splicing of the plan into the output token stream (quote!/TokenStream)',
         ],
         'assumptions': ['A6: integer literals in the syntax tree / IR are non-negative (the lexer scans digits), so negating one cannot overflow'],
     },
